@@ -1,6 +1,7 @@
 """Per-property monitor configuration (which test functions decide which property)."""
 
 PROPS = {}
+NOT_APPLICABLE = {}
 
 PROPS["SMOKE"] = {
     "level": "exploration",
@@ -13,6 +14,12 @@ PROPS["SMOKE"] = {
 
 PROPS["C11"] = {
     "level": "exploration",
+    "level_text": "held on every generated RPC x limit pair (tens of thousands of splits per quick run, millions in thorough) and on the "
+                  "complete small scope of <=3 field kinds; the oracle is a canonical content multiset, so any lost, duplicated, "
+                  "reordered, invented or oversized element in what was explored is reported; end to end the wire of a puppet peer is compared "
+                  "with what sendRPC was given. Not a proof for all RPCs.",
+    "level_note": "trusted: gogo-protobuf Size/Marshal, the harness's notion of an indivisible element; limits start at 100 bytes (the suite's own minimum)",
+    "technique": "runtime monitoring: differential oracle (canonical content multiset) over PRNG + small-scope exhaustive inputs; wire capture at puppet peers",
     "rule": "PRNG-generated RPCs carrying every field kind (published messages with all six fields and unknown fields, "
             "subscriptions with partial flags, GRAFT, PRUNE with PX+backoff, IHAVE, IWANT, IDONTWANT, extensions, partial, "
             "testExtension; element sizes 0..>limit) split at every limit 100..160 plus size-1,size,size+1 and PRNG limits; "
@@ -23,5 +30,32 @@ PROPS["C11"] = {
         {"name": "C11.split", "test": "TestVerifC11Split", "shards": 16, "bubble": False},
         {"name": "C11.small", "test": "TestVerifC11Small", "shards": 16, "bubble": False},
         {"name": "C11.send", "test": "TestVerifC11Send", "shards": 16},
+    ],
+}
+
+PROPS["C15"] = {
+    "level": "exploration",
+    "level_text": "sequential behaviour is compared with a reference model exhaustively up to the stated length; concurrent behaviour is "
+                  "checked on thousands of recorded real-time histories with a linearizability checker and on scripted blocking scenarios "
+                  "at logical quiescence; the one interleaving the property singles out (cancel between check and wait) is forced through the hook. "
+                  "Held on the executions observed, race detector silent on them.",
+    "level_note": "trusted: porcupine v1.3.0, testing/synctest quiescence detection, the 30-line reference model; the Go scheduler decides which real-time interleavings occur",
+    "technique": "runtime monitoring: reference-model comparison (exhaustive short sequences), porcupine linearizability check of recorded histories, forced schedule point (verif hook), Go race detector",
+    "rule": "C15.seq: every sequence of length <=6 (quick) / <=8 (thorough) over {push, urgent push, pop, pop with cancelled "
+            "context, close, len probe} for capacities 1..3 against a 30-line reference model (exhaustive); C15.block: PRNG "
+            "scripts of blocking/non-blocking pushes, pops, cancels and close inside a synctest bubble, checked at every "
+            "quiescent point (nobody blocked who could proceed, nobody blocked after close/cancel); C15.stress: real-time "
+            "concurrent histories (2..5 pushers, 1..4 poppers with PRNG cancellation, a closer; <=45 ops) checked with "
+            "porcupine plus conservation / per-producer FIFO / capacity sampling, also under the race detector; C15.forced: the "
+            "verif hook forces the cancellation between Pop's context check and Cond.Wait. distinct = (capacity, operation "
+            "shape); non-trivial = >=2 concurrent waiters / >=8 ops with a blocking push / hook reached",
+    "exhaustive": False,
+    "monitors": [
+        {"name": "C15.seq", "test": "TestVerifC15Seq", "shards": 16, "bubble": False},
+        {"name": "C15.block", "test": "TestVerifC15Block", "shards": 16},
+        {"name": "C15.forced", "test": "TestVerifC15Forced", "shards": 8, "min_counts": {"hook_reached": 1}},
+        {"name": "C15.stress", "test": "TestVerifC15Stress", "shards": 4, "gomaxprocs": 8, "bubble": False},
+        {"name": "C15.stress.race", "test": "TestVerifC15Stress", "shards": 4, "gomaxprocs": 8, "bubble": False, "race": True,
+         "env": {"VERIF_LIMIT_FRAC": "0.2"}},
     ],
 }
